@@ -258,6 +258,7 @@ func (w *world) runOp(t *task, i int) {
 	oo.Task, oo.Op = t.id, i
 	oo.Started = true
 	w.walWrite(w.wal[t.id][i][0])
+	k.opDelta(1)
 	k.event(evOpStart, int64(t.id), int64(i), k.yieldsTotal)
 	oo.SimStart = k.simNow()
 	var res *distiller.Result
@@ -299,6 +300,7 @@ func (w *world) runOp(t *task, i int) {
 	oo.StallNs = t.opStallNs
 	oo.Finished = true
 	t.results[i] = rawResult{res, err}
+	k.opDelta(-1)
 	k.event(evOpEnd, int64(t.id), int64(i), k.yieldsTotal)
 	if k.mode != "race" {
 		oo.Rec = makeRecord(res, err)
@@ -498,6 +500,31 @@ func TestWorker(t *testing.T) {
 		out.LogBytes = snk.restore()
 	}
 
+	// stall watchdog (outside the bubble, real time): an op in flight that reaches no scheduling
+	// point for a long time is blocked on something the simulated clock cannot release (a lock it
+	// holds itself, a real sleep, a channel nobody writes) or spins inside one library segment.
+	stallAfter := 20 * time.Second
+	if v := os.Getenv("VERIF_STALL_S"); v != "" {
+		if n, err := strconv.Atoi(v); err == nil && n > 0 {
+			stallAfter = time.Duration(n) * time.Second
+		}
+	}
+	go func() {
+		last, lastChange := int64(-1), time.Now()
+		for {
+			time.Sleep(500 * time.Millisecond)
+			cur := k.progress()
+			if cur != last {
+				last, lastChange = cur, time.Now()
+				continue
+			}
+			if k.opsInFlight() > 0 && time.Since(lastChange) > stallAfter {
+				out.Stalled = "no scheduling point reached for " + stallAfter.String() + " of real time with an op in flight"
+				writeOut()
+				os.Exit(3)
+			}
+		}
+	}()
 	if p.Kernel == "race" {
 		run()
 	} else {
@@ -575,6 +602,9 @@ func TestWorker(t *testing.T) {
 	out.SchedFP = strconv.FormatUint(k.fp, 16) + ":" + strconv.FormatInt(k.fpN, 10)
 	if fsSeamUsed {
 		out.Probes["fs_seam_used"] = 1
+	}
+	if k.blockEvents > 0 {
+		out.Probes["blocking_ops_bracketed"] = k.blockEvents
 	}
 	if k.clientsWrapped > 0 {
 		out.Probes["own_http_transport_rerouted"] = k.clientsWrapped
